@@ -241,6 +241,33 @@ Definition event_eqb (a b : event) : bool :=
   str_eqb (e_data a) (e_data b) && opt_eqb str_eqb (e_event a) (e_event b)
   && opt_eqb str_eqb (e_id a) (e_id b) && opt_eqb Z.eqb (e_retry a) (e_retry b).
 
+(* ---- int(value) for an ASCII str, base 10 (CPython longobject.c / PyLong_FromString, reached through int(str)):
+   surrounding C white space (\t \n \v \f \r and space; NOT \x1c-\x1f) is skipped, one optional sign, then decimal
+   digits with single underscores allowed between digits; anything else is ValueError.  For a str containing non-ASCII
+   characters CPython first maps Unicode decimal digits / Unicode spaces to ASCII: that table is not modelled, the
+   helpers' model takes int() as a parameter and this function is one validated instance of it on ASCII input. *)
+Definition is_cspace (c : N) : bool := ((9 <=? c) && (c <=? 13)) || (c =? 32).
+Fixpoint lstrip_c (s : str) : str :=
+  match s with [] => [] | c :: r => if is_cspace c then lstrip_c r else s end.
+Definition strip_c (s : str) : str := rev (lstrip_c (rev (lstrip_c s))).
+(* [prev] = the previous character was a digit *)
+Fixpoint int_digits (acc : Z) (prev : bool) (s : str) : option Z :=
+  match s with
+  | [] => if prev then Some acc else None
+  | c :: r =>
+      if is_digit c then int_digits (10 * acc + Z.of_N (c - 48))%Z true r
+      else if (c =? 95) && prev then int_digits acc false r
+      else None
+  end.
+Definition py_int_ascii (s : str) : option Z :=
+  match strip_c s with
+  | [] => None
+  | c :: r =>
+      if c =? 43 then int_digits 0 false r
+      else if c =? 45 then option_map Z.opp (int_digits 0 false r)
+      else int_digits 0 false (c :: r)
+  end.
+
 Section Oracles.
   (* int(value): Some n, or None for ValueError.  json.loads(line): Some j, or None for an exception.
      Both are external (CPython); the theorems hold for every such function, the correspondence run
